@@ -719,7 +719,7 @@ class Engine:
                 return raw_args[0]
         if name.endswith("as std::ops::Index<I>>::index") or name.endswith("as std::ops::IndexMut<I>>::index_mut") \
                 or re.search(r"core::slice::index::<impl std::ops::Index(Mut)?<I> for \[T\]>::index(_mut)?$", name) \
-                or re.search(r"core::array::<impl std::ops::Index(Mut)?<I> for \[T; N\]>::index(_mut)?$", name):
+                or re.search(r"(core|std)::array::<impl std::ops::Index(Mut)?<I> for \[T; N\]>::index(_mut)?$", name):
             base, ix = raw_args[0], V(raw_args[1])
             rng = range_of(ix)
             kind = "index_mut" if "index_mut" in name else "index"
@@ -771,6 +771,13 @@ class Engine:
                 trace.append(("append", dst[1], dst[2], src, site, name))
                 if "write_all" in name:
                     return ("adt", "core::result::Result", "Ok", ("0",), (("unit",),))
+                return ("unit",)
+            return NotImplemented
+        if re.search(r"<impl \[T\]>::(copy|clone)_from_slice$", name):
+            dst, src = raw_args[0], V(raw_args[1])
+            if isinstance(dst, tuple) and dst and dst[0] == "ref":
+                self.store_cell(st, dst[1], dst[2], src)
+                trace.append(("oblig", "CopyLen", (self.load_cell(st, dst[1], dst[2][:-1]) if dst[2] else None, dst[2][-1] if dst[2] else None, src), site, None, None))
                 return ("unit",)
             return NotImplemented
         if name == "std::vec::Vec::<T, A>::push":
@@ -1153,30 +1160,44 @@ def fold_bin(op, a, b):
             if wo:
                 return ("tuple", (res, mk_const("bool", 1 if ovf else 0)))
             return res
-    # linear normalisation: (x + c1) + c2
+    # linear normal form: sums and products are flattened, sorted, constants folded and kept last
     res = None
-    if bop == "Add":
-        if ca is not None and cb is None:
-            a, b, ca, cb = b, a, cb, ca
+    if bop in ("Add", "Mul"):
+        terms, c = [], (0 if bop == "Add" else 1)
+        ty = None
+        stack = [a, b]
+        while stack:
+            x = stack.pop()
+            if isinstance(x, tuple) and x and x[0] == "bin" and x[1] == bop:
+                stack.append(x[2])
+                stack.append(x[3])
+            elif cint(x) is not None:
+                c = c + x[2] if bop == "Add" else c * x[2]
+                ty = x[1]
+            else:
+                terms.append(x)
+        terms.sort(key=repr)
+        if not terms:
+            res = mk_const(ty or "usize", c)
+        elif bop == "Mul" and c == 0:
+            res = mk_const(ty or "usize", 0)
+        else:
+            res = terms[0]
+            for x in terms[1:]:
+                res = ("bin", bop, res, x)
+            if (bop == "Add" and c != 0) or (bop == "Mul" and c != 1):
+                res = ("bin", bop, res, mk_const(ty or "usize", c))
+    elif bop == "Sub":
         if cb == 0:
             res = a
-        elif cb is not None and isinstance(a, tuple) and a[0] == "bin" and a[1] == "Add" and cint(a[3]) is not None:
-            res = ("bin", "Add", a[2], mk_const(b[1], a[3][2] + cb))
-        else:
-            if cb is None:
-                a, b = sorted([a, b], key=repr)
-            res = ("bin", "Add", a, b)
-    elif bop == "Sub" and cb == 0:
-        res = a
-    elif bop == "Mul":
-        if ca is not None and cb is None:
-            a, b, ca, cb = b, a, cb, ca
-        if cb == 1:
-            res = a
-        else:
-            if cb is None:
-                a, b = sorted([a, b], key=repr)
-            res = ("bin", "Mul", a, b)
+        elif a == b:
+            res = mk_const("usize", 0)
+        elif cb is not None and isinstance(a, tuple) and a and a[0] == "bin" and a[1] == "Add" and cint(a[3]) is not None and a[3][2] >= cb:
+            res = fold_bin("Add", a[2], mk_const(a[3][1], a[3][2] - cb))
+        elif isinstance(a, tuple) and a and a[0] == "bin" and a[1] == "Add" and a[2] == b:
+            res = a[3]
+        elif isinstance(a, tuple) and a and a[0] == "bin" and a[1] == "Add" and a[3] == b:
+            res = a[2]
     if res is None:
         res = ("bin", bop, a, b)
     if wo:
@@ -1211,7 +1232,7 @@ def show(t, depth=0):
     if h in ("tuple", "array"):
         br = "()" if h == "tuple" else "[]"
         return br[0] + ", ".join(s(v) for v in t[1]) + br[1]
-    if h == "slice":
+    if h == "slice" and len(t) == 4:
         return "%s[%s..%s]" % (s(t[1]), s(t[2]), "" if t[3] is None else s(t[3]))
     if h == "bin":
         return "(%s %s %s)" % (s(t[2]), t[1], s(t[3]))
